@@ -149,7 +149,7 @@ Lemma refs_step_spec m tbl f :
   forall g, In g (refs_step tbl f) <->
             In g (fn_globals f) \/ exists d x, In d (fn_callees f) /\ reach m d x /\ refsH m x g.
 Proof.
-  intros Htbl Hlt g. unfold refs_step. rewrite callees_l_eq, refs_l_eq, in_app_iff, in_flat_map. split.
+  intros Htbl Hlt g. unfold refs_step. rewrite nodup_In, callees_l_eq, refs_l_eq, in_app_iff, in_flat_map. split.
   - intros [H|(d & Hd & Hg)]; [left; exact H|right].
     apply (Htbl d (Hlt d Hd)) in Hg as (x & Hr & Hx). eauto.
   - intros [H|(d & x & Hd & Hr & Hx)]; [left; exact H|right].
